@@ -3,6 +3,9 @@ From Base Require Import Prelude Sx Json JsonText Rules Base64.
 From Gen Require Import RoomRules.
 From C02 Require Import Model Proofs.
 From C05 Require Import Proofs.
+From C04 Require Import Model.
+From C04 Require Spec.
+From C05 Require Import Model.
 From C03 Require Import Model Spec Proofs.
 
 (** For every room version 1-11 the servers whose signatures verify_event checks are exactly
@@ -44,3 +47,73 @@ Theorem C03_signed_event_verifies_all :
 Proof. exact signed_event_verifies_all. Qed.
 Eval compute in "PA:C03_signed_event_verifies_all"%string.
 Print Assumptions C03_signed_event_verifies_all.
+
+(** verify_event succeeds exactly when redaction is defined, `hashes.sha256` is a string,
+    `signatures` an object, the required servers computable, every checked server has a supported
+    signature and all its supported signatures verify over the redacted event's signing bytes, and
+    the content hash is within the size limit; the verdict is All iff the stored hash decodes to
+    the computed one. *)
+Theorem C03_verify_event_spec :
+  forall user_server event_server H verify pkm o R red hash sigmap servers calc,
+  redact (redaction R) o None = Ok red -> stored_hash o = Ok hash ->
+  lookup s!"signatures" o = Some (JObj sigmap) ->
+  servers_to_check user_server event_server (signatures R) o = Ok servers ->
+  content_hash H o = Ok calc ->
+  verify_event user_server event_server H verify pkm o R =
+  if forallb (entity_ok verify pkm sigmap (signing_bytes red)) servers
+  then Ok (verdict_of hash calc) else Err 0.
+Proof. exact verify_event_spec. Qed.
+Eval compute in "PA:C03_verify_event_spec"%string.
+Print Assumptions C03_verify_event_spec.
+
+Theorem C03_verify_event_ok_inv :
+  forall user_server event_server H verify pkm o R vd,
+  verify_event user_server event_server H verify pkm o R = Ok vd ->
+  exists red hash sigmap servers calc,
+    redact (redaction R) o None = Ok red /\ stored_hash o = Ok hash /\
+    lookup s!"signatures" o = Some (JObj sigmap) /\
+    servers_to_check user_server event_server (signatures R) o = Ok servers /\
+    content_hash H o = Ok calc /\
+    forallb (entity_ok verify pkm sigmap (signing_bytes red)) servers = true /\
+    vd = verdict_of hash calc.
+Proof. exact verify_event_ok_inv. Qed.
+Eval compute in "PA:C03_verify_event_ok_inv"%string.
+Print Assumptions C03_verify_event_ok_inv.
+
+(** Verification fails when a server the room version demands lacks a valid signature. *)
+Theorem C03_missing_required_signature_fails :
+  forall user_server event_server H verify pkm o R s,
+  (exists servers, servers_to_check user_server event_server (signatures R) o = Ok servers /\ In s servers) ->
+  (forall red sigmap, redact (redaction R) o None = Ok red -> lookup s!"signatures" o = Some (JObj sigmap) ->
+      entity_ok verify pkm sigmap (signing_bytes red) s = false) ->
+  forall vd, verify_event user_server event_server H verify pkm o R <> Ok vd.
+Proof. exact missing_required_signature_fails. Qed.
+Eval compute in "PA:C03_missing_required_signature_fails"%string.
+Print Assumptions C03_missing_required_signature_fails.
+
+(** Changing a hashed field that redaction strips (same redacted signing bytes, same stored
+    hash, signatures and required servers, different digest) downgrades All to Signatures. *)
+Theorem C03_stripped_field_downgrades :
+  forall user_server event_server H verify pkm o o' R red red' calc calc' hash,
+  redact (redaction R) o None = Ok red -> redact (redaction R) o' None = Ok red' ->
+  signing_bytes red' = signing_bytes red ->
+  stored_hash o' = stored_hash o -> lookup s!"signatures" o' = lookup s!"signatures" o ->
+  servers_to_check user_server event_server (signatures R) o' =
+  servers_to_check user_server event_server (signatures R) o ->
+  verify_event user_server event_server H verify pkm o R = Ok VAll ->
+  stored_hash o = Ok hash -> content_hash H o = Ok calc -> content_hash H o' = Ok calc' ->
+  calc' <> calc ->
+  verify_event user_server event_server H verify pkm o' R = Ok VSignatures.
+Proof. exact stripped_field_downgrades. Qed.
+Eval compute in "PA:C03_stripped_field_downgrades"%string.
+Print Assumptions C03_stripped_field_downgrades.
+
+(** Changes confined to `unsigned` change nothing, for every room version 1-11. *)
+Theorem C03_unsigned_irrelevant :
+  forall user_server event_server H verify pkm v R o u,
+  rules_of v = Some R -> wf_obj o -> wf u -> C04.Spec.well_typed v o = true ->
+  verify_event user_server event_server H verify pkm (insert s!"unsigned" u o) R =
+  verify_event user_server event_server H verify pkm o R.
+Proof. exact unsigned_irrelevant. Qed.
+Eval compute in "PA:C03_unsigned_irrelevant"%string.
+Print Assumptions C03_unsigned_irrelevant.
